@@ -7,12 +7,19 @@
 (*   - create_inbound_payment(_for_hash) calls (hash, amount, minimal      *)
 (*     final CLTV delta, expiry),                                          *)
 (*   - what each sender put into the onion of each part (which             *)
-(*     registration's secret, unmodified or not; total_msat; keysend) --   *)
-(*     ground truth supplied by the driver that built the onion,           *)
-(*   - update_add_htlc handed to the recipient, the inbound HTLCs it       *)
-(*     reports as committed when it runs its forwarding step,              *)
-(*   - Event::PaymentClaimable / PaymentClaimed, claim_funds and           *)
-(*     fail_htlc_backwards calls with the height at which they are made,   *)
+(*     registration's secret, unmodified or not; total_msat; the amount    *)
+(*     the sender intends the recipient to get; payment_metadata: the one  *)
+(*     the registration returned, none, or another one; the custom TLVs    *)
+(*     as a set of <<type, value>>; keysend) -- ground truth supplied by   *)
+(*     the driver that built the onion,                                    *)
+(*   - update_add_htlc handed to the recipient (amount, expiry and the     *)
+(*     skimmed_fee_msat the previous hop reports), the inbound HTLCs it    *)
+(*     reports as committed when it runs its forwarding step, which of its *)
+(*     channels have ChannelConfig::accept_underpaying_htlcs set,          *)
+(*   - Event::PaymentClaimable (amount_msat, counterparty_skimmed_fee_msat,*)
+(*     claim_deadline, onion_fields) / PaymentClaimed, claim_funds,        *)
+(*     claim_funds_with_known_custom_tlvs and fail_htlc_backwards calls    *)
+(*     with the height at which they are made,                             *)
 (*   - update_fulfill_htlc / update_fail_htlc the recipient emits,         *)
 (*   - timer ticks, blocks (height, header time), balances at quiescence.  *)
 (* The HMAC inside the payment secret is not modelled: the spec says which *)
@@ -22,13 +29,19 @@
 EXTENDS Integers, Sequences, FiniteSets, FiniteSetsExt, TLC
 
 VARIABLES
-  reg,      \* [reg id -> [node, hash, amt, minCltv, expiry]]   amt = 0: any amount, minCltv = 0: none given
-  sent,     \* Seq([hash, dst, amt, sreg, total, keysend, used])  parts put on the wire by senders
-  rh,       \* [<<node, chan, id>> -> [hash, amt, cltv, sreg, total, keysend, hArr, st, tickAt, bad]]
-  cs,       \* [<<node, hash>> -> [set, amt, deadline, decision, at, claimedEv]]  the set last shown as claimable
+  reg,      \* [reg id -> [node, hash, amt, minCltv, expiry, meta]]   amt = 0: any amount, minCltv = 0: none given,
+            \*   meta = 0: registered without payment_metadata, n > 0: with metadata n
+  sent,     \* Seq([hash, dst, amt, oamt, sreg, total, tlvs, meta, keysend, used])  parts put on the wire by senders:
+            \*   amt = what reaches the recipient, oamt = what the sender's onion says the recipient is to get,
+            \*   tlvs = custom TLVs {<<type, value>>}, meta = 0: no payment_metadata, 1: the one the registration
+            \*   `sreg` returned, 2: any other
+  rh,       \* [<<node, chan, id>> -> [hash, amt, oamt, skim, cltv, sreg, total, tlvs, meta, keysend, hArr, st, tickAt, bad]]
+            \*   skim = skimmed_fee_msat of the update_add_htlc (0: absent)
+  cs,       \* [<<node, hash>> -> [set, amt, deadline, tlvs, decision, at, claimedEv]]  the set last shown as claimable
   height, now,
   ticks,    \* [node -> number of timer ticks]
-  par,      \* [buf, mpp]   HTLC_FAIL_BACK_BUFFER, MPP_TIMEOUT_TICKS of the code under test
+  par,      \* [buf, mpp, up]   HTLC_FAIL_BACK_BUFFER, MPP_TIMEOUT_TICKS of the code under test; up = the channels
+            \*   whose ChannelConfig::accept_underpaying_htlcs is set
   initBal, credited,
   offered   \* nodes that offered an HTLC themselves (not pure recipients)
 
@@ -38,20 +51,24 @@ Margin == 7200     \* documented slack of the invoice expiry (block header time 
 
 Put(f, k, v) == [x \in DOMAIN f \cup {k} |-> IF x = k THEN v ELSE f[x]]
 SumAmt(S) == FoldSet(LAMBDA k, acc : acc + rh[k].amt, 0, S)
+SumOnion(S) == FoldSet(LAMBDA k, acc : acc + rh[k].oamt, 0, S)
+SumSkim(S) == FoldSet(LAMBDA k, acc : acc + rh[k].skim, 0, S)
+Evens(T) == {x \in T : x[1] % 2 = 0}          \* even type = the recipient must understand it
+Common(S) == {x \in UNION {rh[k].tlvs : k \in S} : \A k \in S : x \in rh[k].tlvs}
 MinCltv(S) == CHOOSE c \in {rh[k].cltv : k \in S} : \A k \in S : c <= rh[k].cltv
 Resolved(S) == \A k \in S : rh[k].st \in {"ful", "fail"}
 
 RInit ==
   /\ reg = <<>> /\ sent = <<>> /\ rh = <<>> /\ cs = <<>> /\ height = 0 /\ now = 0 /\ ticks = <<>>
-  /\ par = [buf |-> 0, mpp |-> 0] /\ initBal = <<>> /\ credited = <<>> /\ offered = {}
+  /\ par = [buf |-> 0, mpp |-> 0, up |-> {}] /\ initBal = <<>> /\ credited = <<>> /\ offered = {}
 
-ROpen(nodes, bal, h, buf, mpp) ==
+ROpen(nodes, bal, h, buf, mpp, up) ==
   /\ reg' = <<>> /\ sent' = <<>> /\ rh' = <<>> /\ cs' = <<>> /\ height' = h /\ now' = 0
-  /\ ticks' = [n \in nodes |-> 0] /\ par' = [buf |-> buf, mpp |-> mpp]
+  /\ ticks' = [n \in nodes |-> 0] /\ par' = [buf |-> buf, mpp |-> mpp, up |-> up]
   /\ initBal' = bal /\ credited' = [n \in nodes |-> 0] /\ offered' = {}
 
-RReg(r, node, hash, amt, minCltv, expiry) ==
-  /\ reg' = Put(reg, r, [node |-> node, hash |-> hash, amt |-> amt, minCltv |-> minCltv, expiry |-> expiry])
+RReg(r, node, hash, amt, minCltv, expiry, meta) ==
+  /\ reg' = Put(reg, r, [node |-> node, hash |-> hash, amt |-> amt, minCltv |-> minCltv, expiry |-> expiry, meta |-> meta])
   /\ UNCHANGED <<sent, rh, cs, height, now, ticks, par, initBal, credited, offered>>
 
 RSent(parts) ==
@@ -65,68 +82,94 @@ ROffered(node) ==
 (* ---- an update_add_htlc is handed to `node`.  It is the final hop of the oldest unmatched *)
 (* part that was addressed to `node` with this hash and amount (intermediate hops and        *)
 (* retransmissions change nothing).                                                          *)
-RArrive(node, chan, id, hash, amt, cltv) ==
+RArrive(node, chan, id, hash, amt, cltv, skim) ==
   LET k == <<node, chan, id>>
       cand == {i \in 1..Len(sent) : ~sent[i].used /\ sent[i].hash = hash /\ sent[i].dst = node /\ sent[i].amt = amt}
       i == CHOOSE j \in cand : \A j2 \in cand : j <= j2
   IN IF k \in DOMAIN rh \/ cand = {} THEN UNCHANGED rvars
-     ELSE /\ rh' = Put(rh, k, [hash |-> hash, amt |-> amt, cltv |-> cltv, sreg |-> sent[i].sreg, total |-> sent[i].total,
+     ELSE /\ rh' = Put(rh, k, [hash |-> hash, amt |-> amt, oamt |-> sent[i].oamt, skim |-> skim, cltv |-> cltv,
+                                sreg |-> sent[i].sreg, total |-> sent[i].total, tlvs |-> sent[i].tlvs, meta |-> sent[i].meta,
                                 keysend |-> sent[i].keysend, hArr |-> height, st |-> "arrived", tickAt |-> 0, bad |-> FALSE])
           /\ sent' = [sent EXCEPT ![i].used = TRUE]
           /\ UNCHANGED <<reg, cs, height, now, ticks, par, initBal, credited, offered>>
 
 (* An HTLC that on its own can never be part of a claimable payment: its secret was not      *)
-(* issued by this node for this hash (or is corrupted), the registration has expired beyond  *)
-(* the documented margin, or its expiry leaves no claim window / less than the window the    *)
-(* registration asked for.  Heights only grow, so judging by the height of arrival is the     *)
-(* lenient direction.                                                                         *)
-IndBad(node, x) ==
+(* issued by this node for this hash (or is corrupted), its payment_metadata is not the one   *)
+(* the registration returned (the secret authenticates it), the registration has expired      *)
+(* beyond the documented margin, its expiry leaves no claim window / less than the window the *)
+(* registration asked for, or it brings less than the sender's onion says the recipient is to *)
+(* get: without ChannelConfig::accept_underpaying_htlcs on the channel it came over that is   *)
+(* never acceptable, whatever skimmed_fee_msat the previous hop reports; with it, the         *)
+(* shortfall must be covered by the reported skimmed fee.  Heights only grow, so judging by   *)
+(* the height of arrival is the lenient direction.                                            *)
+Underpaid(chan, x) == x.amt < x.oamt /\ (chan \notin par.up \/ x.amt + x.skim < x.oamt)
+IndBad(node, chan, x) ==
   LET noWindow == x.cltv - par.buf <= x.hArr IN
-  IF x.keysend THEN noWindow
+  IF x.keysend THEN noWindow \/ Underpaid(chan, x)
   ELSE \/ x.sreg \notin DOMAIN reg
        \/ reg[x.sreg].hash # x.hash \/ reg[x.sreg].node # node
+       \/ x.meta # (IF reg[x.sreg].meta > 0 THEN 1 ELSE 0)
        \/ now > reg[x.sreg].expiry + Margin
        \/ noWindow
        \/ (reg[x.sreg].minCltv > 0 /\ x.cltv < x.hArr + reg[x.sreg].minCltv)
+       \/ Underpaid(chan, x)
 
 (* ---- the node runs its forwarding step; `committed` are the inbound HTLCs it reports as   *)
 (* irrevocably committed just before: those not seen before are looked at now.               *)
 RForward(node, committed) ==
   /\ rh' = [k \in DOMAIN rh |->
              IF k[1] = node /\ rh[k].st = "arrived" /\ <<k[2], k[3]>> \in committed
-             THEN [rh[k] EXCEPT !.st = "processed", !.tickAt = ticks[node], !.bad = IndBad(node, rh[k])]
+             THEN [rh[k] EXCEPT !.st = "processed", !.tickAt = ticks[node], !.bad = IndBad(node, k[2], rh[k])]
              ELSE rh[k]]
   /\ UNCHANGED <<reg, sent, cs, height, now, ticks, par, initBal, credited, offered>>
 
-(* ---- Event::PaymentClaimable(hash, amount_msat, claim_deadline).                           *)
+(* ---- Event::PaymentClaimable(hash, amount_msat, counterparty_skimmed_fee_msat,             *)
+(* claim_deadline, onion_fields).                                                             *)
 (* NoBogusClaimable: the event stands for a set of held HTLCs none of which is bad on its     *)
-(* own, that carry the same secret and total_msat, whose amounts add up to the amount shown   *)
-(* and reach the amount committed to at registration; the advertised deadline lies in the     *)
-(* future (what the deadline promises is stated by RFail / RQuietOK).                         *)
-GoodSet(node, hash, S, amt, deadline) ==
+(* own, whose onion fields agree -- same secret, total_msat, payment_metadata and the same    *)
+(* must-understand (even) custom TLVs with the same values; optional (odd) ones may differ -- *)
+(* whose sender-intended amounts reach total_msat and the amount committed to at              *)
+(* registration; the amount shown is what the HTLCs bring, the skimmed fee shown is what the  *)
+(* previous hops reported; the onion fields shown contain only custom TLVs that every HTLC of *)
+(* the set carries with that value, among them every even one (all of them when the set is    *)
+(* all the node has looked at for this hash), and the registration's payment_metadata.  The   *)
+(* advertised deadline lies in the future (what the deadline promises is stated by RFail /    *)
+(* RQuietOK).                                                                                 *)
+GoodSet(node, hash, S, amt, deadline, skimmed, tlvs, meta) ==
   /\ S # {}
   /\ \A k \in S : ~rh[k].bad
-  /\ \A a, b \in S : rh[a].sreg = rh[b].sreg /\ rh[a].total = rh[b].total /\ rh[a].keysend = rh[b].keysend
+  /\ \A a, b \in S : /\ rh[a].sreg = rh[b].sreg /\ rh[a].total = rh[b].total /\ rh[a].keysend = rh[b].keysend
+                      /\ rh[a].meta = rh[b].meta /\ Evens(rh[a].tlvs) = Evens(rh[b].tlvs)
   /\ SumAmt(S) = amt
-  /\ \A k \in S : IF rh[k].keysend THEN Cardinality(S) = 1 ELSE amt >= reg[rh[k].sreg].amt
+  /\ SumSkim(S) = skimmed
+  /\ \A k \in S : IF rh[k].keysend THEN Cardinality(S) = 1
+                   ELSE /\ SumOnion(S) >= reg[rh[k].sreg].amt /\ SumOnion(S) >= rh[k].total
+                        /\ meta = reg[rh[k].sreg].meta
+  /\ tlvs \subseteq Common(S) /\ Evens(tlvs) = Evens(Common(S))
+  /\ (\A k \in DOMAIN rh : (k[1] = node /\ rh[k].hash = hash /\ rh[k].st # "arrived") => k \in S) => tlvs = Common(S)
   /\ deadline > height
-RClaimable(node, hash, amt, deadline) ==
+RClaimable(node, hash, amt, deadline, skimmed, tlvs, meta) ==
   LET key == <<node, hash>>
       \* a set that lost a part to its fail-back height may be completed by a later part and shown again
       again == IF key \in DOMAIN cs /\ cs[key].decision = "none" THEN {k \in cs[key].set : rh[k].st = "shown"} ELSE {}
       cand == {k \in DOMAIN rh : k[1] = node /\ rh[k].hash = hash /\ rh[k].st = "processed"} \cup again
-      S == CHOOSE T \in SUBSET cand : again \subseteq T /\ GoodSet(node, hash, T, amt, deadline)
-  IN /\ \E T \in SUBSET cand : again \subseteq T /\ GoodSet(node, hash, T, amt, deadline)
+      S == CHOOSE T \in SUBSET cand : again \subseteq T /\ GoodSet(node, hash, T, amt, deadline, skimmed, tlvs, meta)
+  IN /\ \E T \in SUBSET cand : again \subseteq T /\ GoodSet(node, hash, T, amt, deadline, skimmed, tlvs, meta)
      /\ key \in DOMAIN cs => (Resolved(cs[key].set) \/ cs[key].decision = "none")
      /\ rh' = [k \in DOMAIN rh |-> IF k \in S THEN [rh[k] EXCEPT !.st = "shown"] ELSE rh[k]]
-     /\ cs' = Put(cs, key, [set |-> S, amt |-> amt, deadline |-> deadline, decision |-> "none", at |-> -1, claimedEv |-> FALSE])
+     /\ cs' = Put(cs, key, [set |-> S, amt |-> amt, deadline |-> deadline, tlvs |-> tlvs, decision |-> "none", at |-> -1, claimedEv |-> FALSE])
      /\ UNCHANGED <<reg, sent, height, now, ticks, par, initBal, credited, offered>>
 
-(* ---- the user answers: claim_funds / fail_htlc_backwards (the first answer counts).        *)
+(* ---- the user answers: claim_funds / claim_funds_with_known_custom_tlvs /                  *)
+(* fail_htlc_backwards (the first answer counts).  claim_funds is documented to fail the      *)
+(* payment if the onion fields shown contain a custom TLV of even type.                       *)
 RDecide(node, hash, what) ==
-  LET key == <<node, hash>> IN
+  LET key == <<node, hash>>
+      eff == IF what = "claimk" THEN "claim"
+             ELSE IF what = "claim" /\ key \in DOMAIN cs /\ Evens(cs[key].tlvs) # {} THEN "fail" ELSE what
+  IN
   /\ cs' = IF key \in DOMAIN cs /\ cs[key].decision = "none" /\ ~Resolved(cs[key].set)
-           THEN [cs EXCEPT ![key].decision = what, ![key].at = height] ELSE cs
+           THEN [cs EXCEPT ![key].decision = eff, ![key].at = height] ELSE cs
   /\ UNCHANGED <<reg, sent, rh, height, now, ticks, par, initBal, credited, offered>>
 
 (* ---- the node emits update_fulfill_htlc for an HTLC it was offered.                        *)
